@@ -25,6 +25,12 @@ pub mod std_specs {
     pub assume_specification<T>[<[T] as AsRef<[T]>>::as_ref](s: &[T]) -> (r: &[T]) ensures r@ == s@;
     pub assume_specification<'a>[<String as PartialEq<&'a str>>::eq](a: &String, b: &&str) -> (r: bool) ensures r == (a@ == b@);
     pub assume_specification[String::as_bytes](s: &String) -> (r: &[u8]) ensures r@ == crate::spec::utf8(s@);
+    /// `drop` has no result and no effect on anything the contracts talk about (Drop impls are not modelled)
+    pub assume_specification<T>[::std::mem::drop](_0: T) where T: ::std::marker::Destruct;
+    pub assume_specification<T>[bool::then_some](b: bool, t: T) -> (r: ::std::option::Option<T>)
+        where T: ::std::marker::Destruct,
+        ensures r == (if b { Some(t) } else { None::<T> });
+    pub assume_specification[String::len](s: &String) -> (r: usize) ensures r == crate::spec::utf8(s@).len();
     /// Vec::set_len (unsafe).  ASSUMED: the first min(old, new) elements are kept, the rest are
     /// unspecified.  NOT CHECKED: its safety precondition `new_len <= capacity` (vstd does not
     /// model capacity; `reserve` only specifies that the contents are unchanged).
